@@ -65,19 +65,27 @@ def c14a(ctx):
         a_cov = [a for a in A if a == 'coverage']
         a_lc = [a for a in A if a == 'layer_coverage']
         a_clip = [a for a in A if a.endswith('.clip')]
-        ok = all(len(x) == 1 for x in (a_lo, a_lt, a_ot, a_sz, a_eq, a_cov, a_lc, a_clip))
+        # the opacity of the single layer: `layer_opts.opacity is None`, `layer_opts.opacity < 1.0` (in whatever spelling)
+        a_opn = [a for a in A if 'layer_opts.opacity' in a and 'None' in a]
+        a_opc = [a for a in A if 'layer_opts.opacity' in a and 'None' not in a]
+        ok = all(len(x) == 1 for x in (a_lo, a_lt, a_ot, a_sz, a_eq, a_cov, a_lc, a_clip, a_opn, a_opc))
         bad = []
         if ok:
+            oc = tab.atom_objs[a_opc[0]]
+            full = const_value(oc.right) if unparse(oc.left) == 'layer_opts.opacity' else None
+            ok = oc.op == '<' and isinstance(full, (int, float)) and 0.99 <= full <= 1.0
             for asg, v, _ in tab.assignments():
                 opaque_ok = (asg[a_lo[0]] and not asg[a_lt[0]]) or asg[a_ot[0]]
                 size_ok = (not asg[a_sz[0]]) or asg[a_eq[0]]
                 clip_free = not (asg[a_lc[0]] and asg[a_clip[0]])
-                nec = opaque_ok and size_ok and clip_free and not asg[a_cov[0]]
+                # with options, an opacity that is given and below 1 fades the layer: the composition blends it with the background
+                faded = asg[a_lo[0]] and not asg[a_opn[0]] and asg[a_opc[0]]
+                nec = opaque_ok and size_ok and clip_free and not asg[a_cov[0]] and not faded
                 if v == 'fast' and not nec:
                     bad.append(asg)
         ctx.check(ok and not bad, 'LayerMerger.merge:fast-path-guard',
                   'the single image is returned as is only if (layer opaque or output transparent) and (no size or equal size) and no '
-                  'clipping layer coverage and no global coverage (%d rows)' % len(tab.rows), mg, st,
+                  'clipping layer coverage, no global coverage and no opacity below 1 (%d rows)' % len(tab.rows), mg, st,
                   fail='the single-layer fast path is taken although %s' % (
                       'a required condition is missing from its guard: %s' % sorted(A) if not ok else 'recomposition is needed: %s' % bad[:1]))
         # only for exactly one layer
@@ -94,25 +102,30 @@ def c14b(ctx):
     a_rc = [a for a in A if 'res_range.contains' in a]
     a_tr = [a for a in A if a == 'self.image_opts.transparent']
     a_on = [a for a in A if 'self.opacity' in a and 'None' in a]
-    a_o0 = [a for a in A if '0.0 < self.opacity' in a or '0 < self.opacity' in a]
-    a_o1 = [a for a in A if 'self.opacity < ' in a]
+    # every test on the value of the opacity: `self.opacity < c` (the layer is faded below c)
+    a_ocmp = [a for a in A if 'self.opacity' in a and 'None' not in a]
     a_cv = [a for a in A if a == 'self.coverage']
     a_cc = [a for a in A if 'self.coverage.contains' in a]
-    ok = all(len(x) == 1 for x in (a_rr, a_rc, a_tr, a_on, a_o0, a_o1, a_cv, a_cc))
+    ok = all(len(x) == 1 for x in (a_rr, a_rc, a_tr, a_on, a_ocmp, a_cv, a_cc))
     bad = []
     if ok:
         cobj = tab.atom_objs[a_cc[0]].expr
         ok = is_call(cobj, 'self.coverage.contains') and same(cobj.args[0], 'query.bbox')
+        # the one comparison is `self.opacity < c` with 0.9 <= c <= 1 (the merger fades for every opacity below 1.0, down to and
+        # including 0: a lower bound on the faded range would declare an invisible layer opaque)
+        oo = tab.atom_objs[a_ocmp[0]]
+        c = const_value(oo.right) if unparse(oo.left) == 'self.opacity' else None
+        ok = ok and oo.op == '<' and isinstance(c, (int, float)) and 0.9 <= c <= 1.0
         for asg, out, _ in tab.assignments():
             if out != 'return True':
                 continue
             in_range = (not asg[a_rr[0]]) or asg[a_rc[0]]
-            partial = (not asg[a_on[0]]) and asg[a_o0[0]] and asg[a_o1[0]]
+            faded = (not asg[a_on[0]]) and asg[a_ocmp[0]]
             covered = (not asg[a_cv[0]]) or asg[a_cc[0]]
-            if not (in_range and not asg[a_tr[0]] and not partial and covered):
+            if not (in_range and not asg[a_tr[0]] and not faded and covered):
                 bad.append(asg)
     ctx.check(ok and not bad, 'WMSSource.is_opaque:conservative',
-              'True only if inside the resolution range, not transparent, no partial opacity, and no coverage or the coverage contains the query bbox (%d rows)' % len(tab.rows),
+              'True only if inside the resolution range, not transparent, opacity None or not below ~1 (0 included in "below"), and no coverage or the coverage contains the query bbox (%d rows)' % len(tab.rows),
               fn, fail='is_opaque answers True although the source may leave pixels uncovered/transparent: %s' % (bad[:1] or sorted(A)))
     base = ctx.fn('mapproxy/layer.py:MapLayer.is_opaque')
     rets = returns_of(base.node)
@@ -360,3 +373,69 @@ def c14h(ctx):
     for o in sub.obs:
         (ctx.ok if o.status == 'ok' else ctx.bad)('%s:%s' % (o.rule, o.construct), o.msg, o.where)
     ctx.stats['functions'] |= sub.stats['functions']
+
+
+@rule('C14.i', floor=4)
+def c14i(ctx):
+    """a layer takes part in the composition whenever one of its sources is visible: the resolution range of a layer / group / cache is
+    the union of the ranges of its sources, and a source *without* range (visible at every scale) makes the union unlimited.  The
+    ranges are collected without looking at their value (a None in the list is what makes merge_resolution_range answer None); a
+    filter on the truth of the range would drop exactly the unlimited sources and hide the layer at scales where they are visible"""
+    fn = ctx.fn('mapproxy/layer.py:merge_layer_res_ranges')
+    par = fn.params[0]
+    comps = [x for x in fn.walk_all() if isinstance(x, (ast.ListComp, ast.GeneratorExp)) and len(x.generators) == 1 and
+             same(x.generators[0].iter, par) and isinstance(x.elt, ast.Attribute) and x.elt.attr == 'res_range']
+    ok = len(comps) == 1
+    detail = ''
+    if ok:
+        gen = comps[0].generators[0]
+        tv = unparse(gen.target)
+        for i in gen.ifs:
+            if not (is_call(i, 'hasattr') and len(i.args) == 2 and unparse(i.args[0]) == tv and const_value(i.args[1]) == 'res_range'):
+                ok = False
+                detail = 'filter `%s`' % unparse(i)
+    ctx.check(ok, 'merge_layer_res_ranges:collects-every-range', 'the ranges of all layers are collected, the unlimited (None) ones included', fn,
+              fail='the ranges are collected with a filter on their value (%s): sources without a range no longer make the merged range unlimited' % detail)
+    red = [x for x in fn.walk() if is_call(x, 'reduce') and x.args and same(x.args[0], 'merge_resolution_range')]
+    ctx.check(bool(red), 'merge_layer_res_ranges:reduce', 'the collected ranges are folded with merge_resolution_range', fn)
+    mr = ctx.fn('mapproxy/grid.py:merge_resolution_range')
+    a, b = mr.params[:2]
+    tab = ctx.rows(table(mr.node.body, lambda n: 'fall' if n is None else 'none' if isinstance(n, ast.Return) and const_value(n.value, 1) is None
+                         else 'range' if isinstance(n, ast.Return) else type(n).__name__))
+    aa = [x for x in tab.atoms if x in (a, '%s == None' % a, 'None == %s' % a)]
+    ab = [x for x in tab.atoms if x in (b, '%s == None' % b, 'None == %s' % b)]
+    ok = len(aa) == 1 and len(ab) == 1
+    if ok:
+        for asg, out, _ in tab.assignments():
+            has_a = asg[aa[0]] if aa[0] == a else not asg[aa[0]]
+            has_b = asg[ab[0]] if ab[0] == b else not asg[ab[0]]
+            if (out == 'range') != (has_a and has_b):
+                ok = False
+    ctx.check(ok, 'merge_resolution_range:unlimited-wins', 'the union of two ranges is a range only if both are ranges, else unlimited (None)', mr,
+              fail='merge_resolution_range answers with a limited range although one side is unlimited')
+    # opacity 0 is an opacity
+    mg = _merge_fn(ctx)
+    from .c05 import _truthy_names
+    defs = Defs(mg.node)
+    op_names = {n for n, ds in defs.defs.items() if any(isinstance(v, ast.Attribute) and v.attr == 'opacity' for v, sel in ds)} | {'opacity'}
+    flagged = []
+    for node in mg.walk():
+        tests = []
+        if isinstance(node, (ast.If, ast.While, ast.IfExp, ast.Assert)):
+            _truthy_names(node.test, tests)
+        elif isinstance(node, ast.BoolOp):
+            for v in node.values[:-1]:
+                _truthy_names(v, tests)
+            for v in node.values[:-1]:
+                if isinstance(v, ast.Attribute) and v.attr == 'opacity':
+                    flagged.append(unparse(v))
+                if isinstance(v, ast.BoolOp) and any(isinstance(y, ast.Attribute) and y.attr == 'opacity' for y in v.values):
+                    flagged.append(unparse(v))
+        flagged += [t.id for t in tests if t.id in op_names and t.id in defs.defs]
+    ctx.check(not flagged, 'LayerMerger.merge:opacity-zero-is-an-opacity', 'the opacity of a layer is compared (is None, < 1.0), never tested by truthiness', mg,
+              fail='the opacity %s is tested by truthiness: opacity 0 (invisible) is taken for "no opacity" and the layer is drawn opaque' % sorted(set(flagged)))
+    g = mg.cfg
+    fades = g.find(lambda x: is_call(x, 'Image.blend', 'ImageChops.multiply'))
+    ok = bool(fades) and all(g.guarded(n, lambda at: at.op == '<' and 'opacity' in unparse(at.left) and const_value(at.right) in (1, 1.0), True) for n, x in fades)
+    ctx.check(ok, 'LayerMerger.merge:fade-below-one', 'a layer is faded exactly when its opacity is below 1.0 (%d fading sites)' % len(fades), mg,
+              fail='the fading of a layer is not guarded by `opacity < 1.0` alone')
